@@ -100,7 +100,12 @@ func runChild() {
 		save() // logged before running
 		mu.Unlock()
 		storeDir := filepath.Join(dir, fmt.Sprintf("store-%d", j.Idx))
-		r := runHistory(rnd, spec, storeDir, filepath.Join(dir, "child.log"))
+		var r *histResult
+		if j.Kind == "memdb" {
+			r = runMemdbHistory(rnd, spec, storeDir, filepath.Join(dir, "child.log"))
+		} else {
+			r = runHistory(rnd, spec, storeDir, filepath.Join(dir, "child.log"))
+		}
 		_ = os.RemoveAll(storeDir)
 		mu.Lock()
 		results[i] = r
